@@ -95,6 +95,32 @@ class IASolverBaseClass:  # pylint: disable=R0902
         self._rs = np.random.RandomState()
         # xxxxxxxxxxxxxxxxxxxxxxxxxxxxxxxxxxxxxxxxxxxxxxxxxxxxxxxxxxxxxxxxx
 
+    @staticmethod
+    def _own_copy(matrices: Sequence[np.ndarray]) -> np.ndarray:
+        """
+        Returns a 1D numpy array (of objects) with a copy of each matrix
+        in `matrices`.
+
+        The precoders and receive filters provided by the user are stored
+        like this, so that any sequence (numpy array of objects, list,
+        tuple) can be provided and so that changing the provided arrays
+        later does not change the IA solver object.
+
+        Parameters
+        ----------
+        matrices : np.ndarray | list[np.ndarray]
+            One 2D numpy array for each user.
+
+        Returns
+        -------
+        np.ndarray
+            A 1D numpy array of 2D numpy arrays.
+        """
+        copied = np.empty(len(matrices), dtype=np.ndarray)
+        for k, matrix in enumerate(matrices):
+            copied[k] = np.array(matrix)
+        return copied
+
     def _clear_receive_filter(self) -> None:
         """
         Clear the receive filter.
@@ -252,7 +278,7 @@ class IASolverBaseClass:  # pylint: disable=R0902
             # Keep our own (double precision) copy of the power
             self._P = np.array(P, dtype=float)
 
-        self._full_F = full_F
+        self._full_F = None if full_F is None else self._own_copy(full_F)
 
         if F is None:
             assert (full_F is not None)
@@ -261,7 +287,7 @@ class IASolverBaseClass:  # pylint: disable=R0902
             for k in range(K):
                 self._F[k] = full_F[k] / np.linalg.norm(full_F[k], 'fro')
         else:
-            self._F = F
+            self._F = self._own_copy(F)
 
         # Update the number of streams
         self._Ns = np.empty(self.K, dtype=int)
@@ -398,8 +424,8 @@ class IASolverBaseClass:  # pylint: disable=R0902
         # Only clear the current filters once the arguments were accepted
         self._clear_receive_filter()
 
-        self._W = W
-        self._W_H = W_H
+        self._W = None if W is None else self._own_copy(W)
+        self._W_H = None if W_H is None else self._own_copy(W_H)
 
     def _calc_equivalent_channel(self, k: int) -> np.ndarray:
         """
